@@ -218,6 +218,7 @@ func genWriter(repo, out string, ps []*packages.Package) {
 		defOutline(&b, "`(*Writer)."+m+"`", "outline_Writer_"+m, outlineOf(wfs, wf.funcDecl("Writer", m)))
 		n++
 	}
+	defOutline(&b, "`joinAccepted` (the response to a complete row)", "outline_joinAccepted", outlineOf(wfs, wf.funcDecl("", "joinAccepted")))
 	defOutline(&b, "`NewWriter` (with the pump goroutine)", "outline_NewWriter", outlineOf(wfs, wf.funcDecl("", "NewWriter")))
 	for _, m := range []string{"Receive", "Close", "write"} {
 		defOutline(&b, "`(*Reader)."+m+"`", "outline_Reader_"+m, outlineOf(rfs, rf.funcDecl("Reader", m)))
@@ -267,6 +268,11 @@ func genWriter(repo, out string, ps []*packages.Package) {
 	ul := bodyOf(wf.funcDecl("Writer", "Unlink"))
 	fu := flushOf(wfs, ul, "w.receives")
 	fmt.Fprintf(&b, "/-- `Unlink`: the same flush after the column was removed -/\ndef unlinkFlushGuard : String := %s\ndef unlinkFlushLoop : Loop := %s\ndef unlinkFlushPop : Pop := %s\n\n", leanStr(fu.guard), fu.loop.lean(wfs), fu.pop.lean())
+
+	// ---- joinAccepted: which cells are kept, when the response is the dropped packet, what is joined
+	ja := bodyOf(wf.funcDecl("", "joinAccepted"))
+	fmt.Fprintf(&b, "/-- `joinAccepted`: the steps at the top level, the loop that keeps the cells to join, the early exits -/\ndef joinAcceptedHeads : List String := %s\ndef joinAcceptedLoop : Loop := %s\ndef joinAcceptedGuards : List (String × String) := %s\n\n",
+		leanStrListInline(heads(wfs, ja)), loopOf(wfs, topLoop(ja, 0)).lean(wfs), leanPairs(guardsOf(wfs, ja)))
 
 	// ---- Writer.Close
 	cl := bodyOf(wf.funcDecl("Writer", "Close"))
